@@ -290,6 +290,33 @@ func (f *yieldReader) Read(p []byte) (int, error) {
 
 var errCallback = errors.New("verif: injected callback failure")
 
+// manualCtx is a context whose deadline "expires" when the harness says so.
+type manualCtx struct {
+	mu   sync.Mutex
+	done chan struct{}
+	over bool
+}
+
+func (m *manualCtx) Deadline() (time.Time, bool) { return time.Time{}, false }
+func (m *manualCtx) Done() <-chan struct{}       { return m.done }
+func (m *manualCtx) Value(any) any               { return nil }
+func (m *manualCtx) Err() error {
+	m.mu.Lock()
+	defer m.mu.Unlock()
+	if m.over {
+		return context.DeadlineExceeded
+	}
+	return nil
+}
+func (m *manualCtx) expire() {
+	m.mu.Lock()
+	defer m.mu.Unlock()
+	if !m.over {
+		m.over = true
+		close(m.done)
+	}
+}
+
 // nthNode re-builds the tree and returns its k-th node in the order the items were given (nil for -1)
 func nthNode(root *gtree.Node, k int, items []wproto.Item) *gtree.Node {
 	if k < 0 {
@@ -369,6 +396,11 @@ func handleOne(rq wproto.Req, alone bool) (rp wproto.Rep) {
 	var cancelUser func()
 	if rq.Massive {
 		ctx, cancel := context.WithCancel(context.Background())
+		if rq.CtxKind == "deadline" {
+			// a context that ends the way an expired deadline does, at the instant the harness chooses
+			mc := &manualCtx{done: make(chan struct{})}
+			ctx, cancel = mc, mc.expire
+		}
 		defer cancel()
 		cancelUser = func() { hc.log("env.cancel", ""); cancel() }
 		if rq.CancelAt != nil && *rq.CancelAt < 0 {
@@ -564,6 +596,9 @@ func handleOne(rq wproto.Req, alone bool) (rp wproto.Rep) {
 	rp.ElapsedUs = time.Since(start).Microseconds()
 	rp.IsReaderErr = o.Err != nil && errors.Is(o.Err, errReader)
 	rp.IsCtxErr = o.Err != nil && errors.Is(o.Err, context.Canceled)
+	if rq.CtxKind == "deadline" {
+		rp.IsCtxErr = o.Err != nil && errors.Is(o.Err, context.DeadlineExceeded)
+	}
 	fw.mu.Lock()
 	rp.WCalls, rp.WRefused, rp.WSizes = fw.calls, fw.refused, fw.sizes
 	fw.mu.Unlock()
